@@ -3,7 +3,8 @@
   selftest/mutants/*.diff, seeded/*/patch.diff  -> at least one of the owning checks must report a VIOLATION
   selftest/preserving/*.diff                    -> every owning check must stay silent (exit 0)
   --cross: every mutant/seed applied on top of every preserving refactoring of the same file (where the patches compose) must still fire
-usage: tools/selftest.py [-j N] [--cross] [pattern]"""
+  --combos N: N random combinations of up to 8 preserving variants applied together, all 20 checks must stay silent
+usage: tools/selftest.py [-j N] [--cross] [--combos N] [pattern]"""
 import glob, json, os, re, subprocess, sys, tempfile, shutil
 from concurrent.futures import ThreadPoolExecutor
 
@@ -59,8 +60,32 @@ def cross_cases(pattern):
     return [c for c in out if pattern in c[0]]
 
 
+def combo_cases(n, seed=20260927):
+    """n random combinations of up to 8 behaviour-preserving variants applied together (greedily: a variant that does not compose
+    with those already applied is left out); every check must stay silent on the combination"""
+    import random
+    rnd = random.Random(seed)
+    quiet = sorted(c[1] for c in cases("") if not c[3])
+    allc = ["C%02d" % i for i in range(1, 21)]
+    out = []
+    for k in range(n):
+        order = quiet[:]
+        rnd.shuffle(order)
+        out.append(("combo:%02d" % k, ("greedy", order, 8), allc, False))
+    return out
+
+
 def run_case(wt, case):
     name, patch, checks, must_fire = case
+    if isinstance(patch, tuple) and patch[0] == "greedy":
+        applied = []
+        for pt in patch[1]:
+            if len(applied) >= patch[2]:
+                break
+            if subprocess.run(["git", "-C", wt, "apply", pt], capture_output=True).returncode == 0:
+                applied.append(os.path.basename(pt)[:-5])
+        name = name + " [" + " ".join(applied) + "]"
+        patch = []
     for i_, pt in enumerate(patch if isinstance(patch, list) else [patch]):
         r = subprocess.run(["git", "-C", wt, "apply", pt], capture_output=True, text=True)
         if r.returncode != 0:
@@ -94,7 +119,10 @@ def main():
     cross = bool(args and args[0] == "--cross")
     if cross:
         args = args[1:]
-    cs = (cross_cases if cross else cases)(args[0] if args else "")
+    if args and args[0] == "--combos":
+        cs = combo_cases(int(args[1]) if len(args) > 1 else 30)
+    else:
+        cs = (cross_cases if cross else cases)(args[0] if args else "")
     base = tempfile.mkdtemp(prefix="verif_selftest_")
     wts = []
     try:
